@@ -54,6 +54,12 @@ CLAIMED.update({
   note="Order/element-wise equality with the RESP3 reply is proved only as far as the type structure (lengths of array/pairs/map results, per-type mapping); values held in Go maps (sets, attribute maps) are not modelled, and the attribute-map converter's clause is a stated assumption. That handlers never read respVersion is not yet checked. nativeValueToResp and the String methods are trusted contracts.",
   design="DESIGN.md §6 C15"),
 })
+CLAIMED.update({
+ "C14": dict(
+  text="Deductive proof on the real database-table code: createDbUnlocked/getDb accept exactly indexes 0..15, never replace an existing database object and keep the table invariant (quantified over all indexes); selectDb changes the connection's selection only on success (rejected index leaves selectedDb and the cached store pointer untouched) and on success caches exactly the table's object for that index; flush empties the caller's database object in place under its own lock (count 0, marked dirty, lock released), flushDb leaves the table itself unchanged (every index maps to the same object as before) and empties the object of the requested index. The old drop-and-recreate flush (other connections kept the stale object) was found and repaired.",
+  note="flushAll's loop over the table (all entries flushed) and the 'handlers only write their own connection's state' frame obligations are not yet under contract; isolation between databases rests on C08's per-store obligations. newDataStore/newDataStoreCommand/load are trusted contracts.",
+  design="DESIGN.md §6 C14"),
+})
 NOT_BUILT = {}
 ALL = ["C%02d" % i for i in range(1, 21)]
 
